@@ -179,6 +179,9 @@ func (fx *FnExec) staticCall(st *State, fn *ssa.Function, args, bindings []*Term
 		}
 	}
 	// synthetic wrappers/thunks: resolve promoted methods to the underlying method
+	if con := fx.e.cons[fn]; con != nil && con.Pure {
+		return fx.pureApply(st, fn.String(), fn.Signature, nil, args, true)
+	}
 	if con := fx.e.cons[fn]; con != nil {
 		if con.Inline {
 			return fx.inline(st, fn, con, args, bindings, p)
@@ -190,6 +193,9 @@ func (fx *FnExec) staticCall(st *State, fn *ssa.Function, args, bindings []*Term
 	full := fn.String()
 	if r, ok := fx.knownExternal(st, full, fn, args, p); ok {
 		return r
+	}
+	if fx.pureFuncOf(fn) {
+		return fx.pureApply(st, full, fn.Signature, nil, args, true)
 	}
 	if fn.Blocks == nil {
 		fx.fail("call to %s: no body and no contract", full)
@@ -319,6 +325,8 @@ func (fx *FnExec) contractEnv(fn *ssa.Function, con *Contract, args []*Term, pre
 			env.vars[names[i]] = specVal{r, fn.Signature.Results().At(i).Type()}
 			if len(results) == 1 {
 				env.vars["result"] = env.vars[names[i]]
+			} else {
+				env.vars[fmt.Sprintf("result%d", i)] = env.vars[names[i]] // positional alias for named results
 			}
 		}
 	}
@@ -592,6 +600,9 @@ func (fx *FnExec) invoke(st *State, cc *ssa.CallCommon, recv *Term, args []*Term
 	fx.oblig(st, "nil-deref", "invoke", p, Neq(IfcTag(recv), IntLit(0)))
 	if con := fx.ifaceContract(cc); con != nil {
 		return fx.applyIfaceContract(st, con, cc, recv, args, p)
+	}
+	if n, ok := cc.Value.Type().(*types.Named); ok && fx.e.isPurePkg(n.Obj().Pkg()) {
+		return fx.pureApply(st, "iface "+ifaceKey(cc), cc.Signature(), recv, args, true)
 	}
 	fx.opaqueTargets = fx.e.dynamicTargets(cc)
 	if len(fx.opaqueTargets) == 0 {
